@@ -13,6 +13,7 @@ import (
 	"runtime"
 	"strings"
 	"sync"
+	"sync/atomic"
 	"time"
 
 	fdo "github.com/fido-device-onboard/go-fdo"
@@ -539,8 +540,16 @@ func (t *c16Transport) send(ctx context.Context, msgType uint8, msg any, sess ke
 
 // ---------- one run ----------
 
+// c16Hangs counts runs that did not return within the watchdog; after a few of them the remaining runs get
+// a short watchdog so that a change which makes every run hang is reported in minutes, not hours.
+var c16Hangs atomic.Int32
+
 func c16Execute(c *c16Case, hook c16Hook) *c16Run {
 	r := &c16Run{c: c, jit: c16Jitter(c.Jitter, c.Seed), rnd: rand.New(rand.NewPCG(c.Seed, 0xc16))}
+	limit := 45 * time.Second
+	if c16Hangs.Load() >= 4 {
+		limit = 3 * time.Second
+	}
 	done := make(chan struct{})
 	go func() {
 		defer close(done)
@@ -555,7 +564,8 @@ func c16Execute(c *c16Case, hook c16Hook) *c16Run {
 	}()
 	select {
 	case <-done:
-	case <-time.After(45 * time.Second):
+	case <-time.After(limit):
+		c16Hangs.Add(1)
 		r.mu.Lock()
 		r.Hang = true
 		r.mu.Unlock()
